@@ -40,6 +40,7 @@ func init() {
 			{ID: "C09.R20", Text: "every member partitions the same 0..N-1: N handed to the vBucket discovery is the vBucket count of the bucket as the cluster map states it (Client.GetNumVBuckets)", Run: vbCountSource},
 			{ID: "C09.R21", Text: "a member learns of every change of the group, in every stream mode: the start path subscribes the membership listener unconditionally and a failure is fatal (the start and close paths of the client, call by call: same rule as C19.R7)", Run: clientWiring},
 			{ID: "C09.R22", Text: "a membership that cannot be built is refused, not replaced: the no-match paths of the membership and metadata selections panic, so no member silently numbers itself (same rule as C15.R4)", Run: c15r4},
+			{ID: "C09.R24", Text: "a member takes the chunk of the number it was given: every assignment that differs from the one in effect — a renumbering at unchanged group size too, and the first one whatever it is — is published (same rule as C10.R1)", Run: c10r1},
 			{ID: "C09.R3", Text: "purity: no globals, goroutines, map ranges; ChunkSlice calls only builtins; Get calls only GetInfo, ChunkSlice and the logger", Run: c09r3},
 		},
 	})
